@@ -27,6 +27,17 @@ ASSUMPTIONS = ["cluster spread is the Frobenius norm of the fitted covariance, g
                "K>=1, m>=1, every label in [0,K) (what the main loop hands to the step)"]
 
 
+MATRIX_CATALOGUE = [
+    [[3.0, 0.0], [0.0, 4.0]],          # Frobenius 5     spectral 4
+    [[4.5, 0.0], [0.0, 0.0]],          # Frobenius 4.5   spectral 4.5
+    [[2.5, 2.5], [2.5, 2.5]],          # Frobenius 5     spectral 5
+    [[3.0, 1.0], [1.0, 3.0]],          # Frobenius sqrt(20)=4.47  spectral 4
+    [[0.0, 3.5], [3.5, 0.0]],          # Frobenius 4.95  spectral 3.5  trace 0
+    [[1.5, 0.0], [0.0, 1.5]],          # Frobenius 2.12
+    [[6.0, 0.0], [0.0, 0.5]],          # Frobenius 6.02
+]
+
+
 def _labels_from_sizes(sizes, seed):
     labels = [k for k, s in enumerate(sizes) for _ in range(s)]
     random.Random(seed).shuffle(labels)
@@ -98,11 +109,21 @@ def random_case(draw):
         else:
             s = draw(st.integers(2, 200)) if regime != "near" else draw(st.integers(2 * m, 6 * m))
         sizes.append(s)
-    tied = draw(st.booleans())
-    if tied:
+    style = draw(st.sampled_from(["tied", "distinct", "distinct", "matrices", "matrices", "near_ties", "extreme_scales"]))
+    if style == "tied":
         spreads = [draw(st.sampled_from([1.0, 2.0, 2.0, 3.5])) for _ in range(K)]
-    else:
+    elif style == "distinct":
         spreads = draw(st.permutations([float(i + 1) * 0.75 for i in range(K)]))
+    elif style == "matrices":
+        # 2x2 fitted covariances whose Frobenius order differs from their spectral / trace / max-entry order
+        spreads = [draw(st.sampled_from(MATRIX_CATALOGUE)) for _ in range(K)]
+    elif style == "near_ties":
+        spreads = [draw(st.sampled_from([1.0, 1.0 + 2.0 ** -30, 1.0 + 2.0 ** -29, 1.0 - 2.0 ** -31, 2.0])) for _ in range(K)]
+    else:
+        spreads = [draw(st.sampled_from([1e40, 2e40, 3e39, 1e-50, 3e-50, 2e-51, 1.0])) for _ in range(K)]
+    if draw(st.integers(0, 5)) == 0:
+        m = draw(st.sampled_from([20, 30, 40, 60]))         # thresholds derived from m show only for large m
+        sizes = [draw(st.sampled_from([0, 1, 2, 3, 4, 5, m, 2 * m, 2 * m + 3, 3 * m, 150])) for _ in range(K)]
     seed = draw(st.integers(0, 2 ** 32 - 1))
     return {"K": K, "m": m, "sizes": sizes, "spreads": list(spreads), "seed": seed}
 
@@ -164,15 +185,13 @@ def machine_factory(tally, fail):
                 nxt.clusters = [c.deep_copy() for c in nxt.clusters]
                 nxt.point_labels = list(self.labels)
                 cur = nxt
-            spreads_now = [float(np.linalg.norm(c.computed_covariance)) for c in cur.clusters]
-            if spreads_now != [float(s) for s in self.spreads]:
+            spreads_now = [rm.frobenius(c.computed_covariance) for c in cur.clusters]
+            if spreads_now != [rm.frobenius(s) for s in self.spreads]:
                 nxt = cur.shallow_copy()
                 new_clusters = []
                 for k, c in enumerate(nxt.clusters):
                     c2 = c.shallow_copy()
-                    cov = np.zeros((1, 1))
-                    cov[0, 0] = float(self.spreads[k])
-                    c2.computed_covariance = cov
+                    c2.computed_covariance = rm.spread_matrix(self.spreads[k])
                     new_clusters.append(c2)
                 nxt.clusters = new_clusters
                 cur = nxt
